@@ -90,11 +90,11 @@ def classify(model, cc):
     return len(rows) >= 2 and (omits or disorder)
 
 
-def parse_devs(model, text, cc):
+def parse_devs(model, text, cc, fobj=None):
     """The valid-file oracles.  Returns False when the text was rejected."""
     DAT_parser = _mods()
     try:
-        fa = DAT_parser.parse_file(io.StringIO(text))
+        fa = DAT_parser.parse_file(io.StringIO(text) if fobj is None else fobj)
     except DAT_parser.ExceptionDAT as err:
         cc.dev('accepts-valid', 'rejected-valid', 'valid text rejected: %s\n%s' % (err, text[:600]))
         return False
@@ -227,6 +227,42 @@ def check_bundled(case, cc):
     parse_devs(model, text, cc)
 
 
+@st.composite
+def handle_histories(draw):
+    model = draw(dat.dat_models(max_channels=4, max_rows=4))
+    ops = draw(st.lists(st.sampled_from(['can', 'parse']), min_size=2, max_size=4))
+    return {'model': model, 'ops': ops}
+
+
+def check_handle_history(case, cc):
+    """The library's own calls on ONE open file object, in any order: identification (can_parse_file) then parsing, parsing
+    twice.  Each parse must give what a parse of a fresh object gives (the full valid-file oracle)."""
+    DAT_parser = _mods()
+    model, ops = case['model'], case['ops']
+    try:
+        text = dat.render_dat(model)
+    except dat.DatModelError as err:
+        raise HarnessError('generator produced an invalid model: %s' % err)
+    if not model['rows']:
+        return
+    cc.nt('parse' in ops[1:])
+    cc.cls('handle-history:parse-after-identify', any(a == 'can' and b == 'parse' for a, b in zip(ops, ops[1:])))
+    cc.cls('handle-history:parse-twice', ops.count('parse') >= 2)
+    fobj = io.StringIO(text)
+    for i, op in enumerate(ops):
+        if op == 'can':
+            try:
+                ok = DAT_parser.can_parse_file(fobj)
+            except Exception as err:  # noqa
+                cc.unexpected(err)
+                return
+            if not ok:
+                cc.dev('handle-history', 'identify-says-no', 'step %d of %r: can_parse_file() is False for valid text\n%s' % (i, ops, text[:400]))
+                return
+        elif not parse_devs(model, text, cc, fobj):
+            return
+
+
 def run_bundled(ctx, part, tier, shard, nshards):
     if shard == 0:
         ctx.eval_case(part, {'path': EXAMPLE})
@@ -238,4 +274,5 @@ def parts(tier):
         HypPart('valid', dat.dat_models(), check_valid, 1600, 16000),
         HypPart('valid-small', dat.dat_models(max_channels=3, max_rows=3), check_valid, 800, 8000),
         HypPart('corrupted', dat.dat_corrupted(), check_corrupted, 2400, 32000),
+        HypPart('handle-history', handle_histories(), check_handle_history, 600, 6000),
     ]
